@@ -448,64 +448,26 @@ func init() {
 				}
 			}
 			vs, _ := ref.PrintVal(val)
-			n := []int{0, 1, 2, 3, 4, 5, 8, 30, len(vs) - 1, len(vs), len(vs) + 1, utf8.RuneCountInString(vs)}[r.Intn(12)]
-			if n < 0 {
-				n = 0
+			nopts := []int{0, 1, 2, 3, 4, 5, 6, 7, 8, 30, len(vs) - 1, len(vs), len(vs) + 1, utf8.RuneCountInString(vs), utf8.RuneCountInString(vs) - 1, utf8.RuneCountInString(vs) + 2}
+			ns := []int{nopts[r.Intn(len(nopts))]}
+			if d.needsN && (i < nsys || r.P(1, 4)) && len(vs) < 200 {
+				ns = nopts // every boundary argument for this (value, directive)
 			}
-			if strings.HasPrefix(d.tmpl, "insertWordBreaks") && n < 1 {
-				n = 1
-			}
-			b := r.Bool()
-			data := map[string]ref.Value{"x": val}
-			if d.needsN {
-				data["n"] = ref.Int(int64(n))
-			}
-			if d.needsB {
-				data["b"] = ref.Bool(b)
-			}
-			nontrivial := ""
-			if strings.IndexFunc(vs, func(c rune) bool { return !(c >= 'a' && c <= 'z' || c >= 'A' && c <= 'Z' || c >= '0' && c <= '9') }) >= 0 || (d.needsN && utf8.RuneCountInString(vs) > n) {
-				nontrivial = fmt.Sprintf("%s|%q|%d|%v", d.tmpl, vs, n, b)
-			}
-			cd := map[string]interface{}{"template": d.tmpl, "value": vs, "n": n, "ellipsis": b}
-			// Go side
-			out, err := render(c16Tofu, "d."+d.tmpl, data, nil, nil)
-			ctx.Eval(nontrivial + "|go")
-			ctx.Cell("go:" + d.tmpl)
-			if err != nil {
-				return fw.Result{Verdict: fw.Violated, Key: "go:render-error:" + d.tmpl, Case: cd, Msg: fmt.Sprintf("{$x|%s} with x=%q n=%d: %v", d.tmpl, fw.Trim(vs, 80), n, errText(err))}
-			}
-			if why := c16Judge(e, d, out, val, n, b); why != "" {
-				cd["go_output"] = out
-				return fw.Result{Verdict: fw.Violated, Key: "go:unfaithful:" + d.tmpl, Case: cd, Msg: fmt.Sprintf("Go renderer, %s with x=%q n=%d ellipsis=%v: %s", d.tmpl, fw.Trim(vs, 80), n, b, why)}
-			}
-			ctx.Obs("go_outputs_decoded", 1)
-			// JavaScript side (values JSON can carry exactly)
-			if !c16JS {
-				return fw.Result{Verdict: fw.Inconclusive, Key: "js-setup", Msg: c16Err}
-			}
-			if !utf8.ValidString(vs) || (val.K == ref.KFloat && (math.IsNaN(val.F) || math.IsInf(val.F, 0))) {
-				return fw.Result{Verdict: fw.Held}
-			}
-			if ctx.Tier == "thorough" && i%2 == 1 && i > nsys {
-				return fw.Result{Verdict: fw.Held} // JS side sampled in the random part
-			}
-			jout, typ, jerr := e.Eval("d." + d.tmpl + "(" + jsonArg(goData(data)) + ", null, {})")
-			ctx.Eval(nontrivial + "|js")
-			ctx.Cell("js:" + d.tmpl)
-			if jerr != nil || typ != "string" {
-				if _, isEng := jerr.(jsx.EngineError); isEng {
-					return fw.Result{Verdict: fw.Inconclusive, Key: "engine-failure", Msg: jerr.Error()}
+			seenN := map[int]bool{}
+			for _, n := range ns {
+				if n < 0 {
+					n = 0
 				}
-				return fw.Result{Verdict: fw.Violated, Key: "js:call-error:" + d.tmpl, Case: cd, Msg: fmt.Sprintf("generated JavaScript, %s with x=%q n=%d: %v", d.tmpl, fw.Trim(vs, 80), n, jerr)}
-			}
-			if why := c16Judge(e, d, jout, val, n, b); why != "" {
-				cd["js_output"] = jout
-				return fw.Result{Verdict: fw.Violated, Key: "js:unfaithful:" + d.tmpl, Case: cd, Msg: fmt.Sprintf("generated JavaScript, %s with x=%q n=%d ellipsis=%v: %s", d.tmpl, fw.Trim(vs, 80), n, b, why)}
-			}
-			ctx.Obs("js_outputs_decoded", 1)
-			if i%1999 == 0 {
-				ctx.Sample(map[string]interface{}{"directive": d.tmpl, "value": fw.Trim(vs, 80), "n": n, "go": fw.Trim(out, 100), "js": fw.Trim(jout, 100)})
+				if strings.HasPrefix(d.tmpl, "insertWordBreaks") && n < 1 {
+					n = 1
+				}
+				if seenN[n] {
+					continue
+				}
+				seenN[n] = true
+				if res := c16One(ctx, e, d, val, vs, n, r.Bool(), i, nsys); res.Verdict != fw.Held {
+					return res
+				}
 			}
 			return fw.Result{Verdict: fw.Held}
 		},
@@ -524,4 +486,62 @@ func init() {
 			"the JavaScript side only sees values JSON can carry exactly (valid UTF-8)",
 		},
 	})
+}
+
+// c16One judges one (directive, value, n, ellipsis) on both backends.
+func c16One(ctx *fw.Ctx, e jsx.Engine, d c16Dir, val ref.Value, vs string, n int, b bool, i, nsys int) fw.Result {
+	r := ctx.Rng
+	_ = r
+	data := map[string]ref.Value{"x": val}
+	if d.needsN {
+		data["n"] = ref.Int(int64(n))
+	}
+	if d.needsB {
+		data["b"] = ref.Bool(b)
+	}
+	nontrivial := ""
+	if strings.IndexFunc(vs, func(c rune) bool { return !(c >= 'a' && c <= 'z' || c >= 'A' && c <= 'Z' || c >= '0' && c <= '9') }) >= 0 || (d.needsN && utf8.RuneCountInString(vs) > n) {
+		nontrivial = fmt.Sprintf("%s|%q|%d|%v", d.tmpl, vs, n, b)
+	}
+	cd := map[string]interface{}{"template": d.tmpl, "value": vs, "n": n, "ellipsis": b}
+	// Go side
+	out, err := render(c16Tofu, "d."+d.tmpl, data, nil, nil)
+	ctx.Eval(nontrivial + "|go")
+	ctx.Cell("go:" + d.tmpl)
+	if err != nil {
+		return fw.Result{Verdict: fw.Violated, Key: "go:render-error:" + d.tmpl, Case: cd, Msg: fmt.Sprintf("{$x|%s} with x=%q n=%d: %v", d.tmpl, fw.Trim(vs, 80), n, errText(err))}
+	}
+	if why := c16Judge(e, d, out, val, n, b); why != "" {
+		cd["go_output"] = out
+		return fw.Result{Verdict: fw.Violated, Key: "go:unfaithful:" + d.tmpl, Case: cd, Msg: fmt.Sprintf("Go renderer, %s with x=%q n=%d ellipsis=%v: %s", d.tmpl, fw.Trim(vs, 80), n, b, why)}
+	}
+	ctx.Obs("go_outputs_decoded", 1)
+	// JavaScript side (values JSON can carry exactly)
+	if !c16JS {
+		return fw.Result{Verdict: fw.Inconclusive, Key: "js-setup", Msg: c16Err}
+	}
+	if !utf8.ValidString(vs) || (val.K == ref.KFloat && (math.IsNaN(val.F) || math.IsInf(val.F, 0))) {
+		return fw.Result{Verdict: fw.Held}
+	}
+	if ctx.Tier == "thorough" && i%2 == 1 && i > nsys {
+		return fw.Result{Verdict: fw.Held} // JS side sampled in the random part
+	}
+	jout, typ, jerr := e.Eval("d." + d.tmpl + "(" + jsonArg(goData(data)) + ", null, {})")
+	ctx.Eval(nontrivial + "|js")
+	ctx.Cell("js:" + d.tmpl)
+	if jerr != nil || typ != "string" {
+		if _, isEng := jerr.(jsx.EngineError); isEng {
+			return fw.Result{Verdict: fw.Inconclusive, Key: "engine-failure", Msg: jerr.Error()}
+		}
+		return fw.Result{Verdict: fw.Violated, Key: "js:call-error:" + d.tmpl, Case: cd, Msg: fmt.Sprintf("generated JavaScript, %s with x=%q n=%d: %v", d.tmpl, fw.Trim(vs, 80), n, jerr)}
+	}
+	if why := c16Judge(e, d, jout, val, n, b); why != "" {
+		cd["js_output"] = jout
+		return fw.Result{Verdict: fw.Violated, Key: "js:unfaithful:" + d.tmpl, Case: cd, Msg: fmt.Sprintf("generated JavaScript, %s with x=%q n=%d ellipsis=%v: %s", d.tmpl, fw.Trim(vs, 80), n, b, why)}
+	}
+	ctx.Obs("js_outputs_decoded", 1)
+	if i%1999 == 0 {
+		ctx.Sample(map[string]interface{}{"directive": d.tmpl, "value": fw.Trim(vs, 80), "n": n, "go": fw.Trim(out, 100), "js": fw.Trim(jout, 100)})
+	}
+	return fw.Result{Verdict: fw.Held}
 }
